@@ -19,6 +19,7 @@ var edgeTokens = []string{
 	"0x10", "0X1F", "0b11", "0o7", "1_000", "0x1p-2", "0x1.8p1", "0x_1p0", "inf", "-inf", "+Inf", "Infinity", "-Infinity", "infinit", "nan", "NaN", "-nan", "+NaN",
 	"true", "false", "TRUE", "True", "t", "f", "T", "F", "tRuE", "yes", "no", "on", "off", "1 ", " 1", "1\t", "\n1", "٣", "１", "²", "", "a", "é", "\xff\xfe",
 	"1,2", "-", "=1", "1=2", "0.1e+1_0", "0x", "1e", "e1", "..", "1.2.3", "NaNx", "Inf ", "+", "18446744073709551616", "00000000000000000001", "1e+", "0e0", "-.5e-3",
+	"\"42\"", "\"1.5\"", "\"true\"", "\"abc\"", "\"\"", "\"", "'7'", "\\-1", "\\7",
 	"12\r", "1.5\r\n", "true\n", "abc\r", "7\n", "\r", "false\r\n",
 	"truE", "FALSE", "False", "fALSE", "0.0", "1.0", "١", "0x7fffffffffffffff", "1__0", "_1", "1_", "١٢٣", "１２", " ", "\t", "x y", "a=b=c", "-x", "--long", "--",
 }
@@ -197,6 +198,9 @@ func (c13Prop) Gen(t *Tape, ph *PhaseCfg) Case {
 			spec = "X..."
 		} else {
 			spec = "X"
+		}
+		if t.Draw(3) == 0 {
+			spec = "-- " + spec // a `--` written in the spec: as if one were present on the command line
 		}
 		toks := []string{}
 		if c.Lead != "" {
